@@ -20,10 +20,7 @@ func RunC10(r *sim.Run) {
 		// the controller's own goroutines give up the processor inside a sync, at
 		// statements of the controller: whatever else is runnable (a second queue
 		// worker, if there were one; informer handlers) runs in between
-		w.Sc.SeedPreemption(uint64(t.Draw(1 << 30)))
-		w.Sc.PreemptSites = func(site string) bool {
-			return strings.HasPrefix(site, "upstream_controller.go") || strings.HasPrefix(site, "clusterinfo.go")
-		}
+		w.EnablePreemption(uint64(t.Draw(1 << 30)))
 		defer func() { r.ProbeN("preemptions_inside_controller_code", w.Sc.Preempts) }()
 	}
 	names := []string{"alpha", "beta", "one", "gamma"}[:t.Range(2, 4)]
